@@ -8,6 +8,8 @@ import (
 	"bytes"
 	"fmt"
 	"math"
+	"os"
+	"runtime"
 	"strconv"
 	"strings"
 	"time"
@@ -405,6 +407,11 @@ func shortStr(s string) string {
 func finishRun(x *Exec, s *simrt.Sim, prop string) {
 	if s == nil {
 		return
+	}
+	if os.Getenv("CRSIM_STACKS") != "" && (x.Out.Class != "" || x.Out.Infra != "") {
+		buf := make([]byte, 1<<22)
+		n := runtime.Stack(buf, true)
+		fmt.Fprintf(os.Stderr, "goroutines at the end of the run:\n%s\n", buf[:n])
 	}
 	if len(s.Panics) > 0 && x.Out.Class == "" {
 		p := s.Panics[0]
